@@ -173,7 +173,8 @@ def handlerBracket : Bool :=
 /-- persistEvent: marshal first (a failure is reported and nothing is appended), then ONE append (in no loop) inside
 the `storeMu` critical section together with the update of `lastOffset`, which happens only on success; persist-start
 before and persist-complete after the append, the latter outside the lock; each error path reports once; the
-persistence timeout context is cancelled by a `defer` registered at once -/
+persistence timeout context is cancelled by a `defer` registered at once, and is derived whenever a timeout is
+configured – under that one condition and no other (a publish context with a deadline of its own does not replace it) -/
 def persistShape : Bool :=
   chain [marshal, obsPersistStart, storeMuLock, storeAppend, setLastOffset, storeMuUnlock, obsPersistComplete] persistFlow &&
   count storeAppend persistFlow == 1 && topLevelUpTo storeAppend 0 persistFlow &&
@@ -184,7 +185,8 @@ def persistShape : Bool :=
   (annotate persistFlow).all (fun a => a.tok != persistErrH || a.stack.contains ifMarshalErr || a.stack.contains ifSaveErr) &&
   count obsPersistStart persistFlow == 1 && count obsPersistComplete persistFlow == 1 &&
   topLevelUpTo obsPersistStart 1 persistFlow && topLevelUpTo obsPersistComplete 1 persistFlow &&
-  followedBy withTimeout [setCtx, setCancel, deferCancel] persistFlow
+  followedBy withTimeout [setCtx, setCancel, deferCancel] persistFlow &&
+  (annotate persistFlow).all (fun a => a.tok != withTimeout || a.stack == [ifPersistTimeout]) && count withTimeout persistFlow == 1
 
 /-- Shutdown: the wait runs in a goroutine that then closes `done`; the store is closed only in the `<-done` branch
 of the select, never in the `<-ctx.Done()` branch and never in the goroutine -/
